@@ -446,7 +446,7 @@ func checkC12(tier string) int {
 			"templates_rendered":  m.Templates,
 			"corpus_specs":        len(corpus),
 			"known_findings_hit":  knownHit,
-			"rewrite_report":      map[string]any{"os_files": b.Report.OSFiles, "time_rewrites": b.Report.TimeRewrites, "rand_files": b.Report.RandFiles, "go_stmts": b.Report.GoStmts, "go_stmts_turned_into_tasks": b.Report.GoRewritten, "blocking_statements_bracketed": b.Report.SyncBracketed, "blocking_operations_not_modelled": b.Report.SyncUnmodelled, "numcpu_rewrites": b.Report.NumCPURewrites, "selects": b.Report.Selects, "per_iteration_loopvar": b.Report.PerIterLoopVar},
+			"rewrite_report":      map[string]any{"os_files": b.Report.OSFiles, "time_rewrites": b.Report.TimeRewrites, "rand_files": b.Report.RandFiles, "go_stmts": b.Report.GoStmts, "go_stmts_turned_into_tasks": b.Report.GoRewritten, "blocking_statements_bracketed": b.Report.SyncBracketed, "blocking_operations_not_modelled": b.Report.SyncUnmodelled, "numcpu_rewrites": b.Report.NumCPURewrites, "selects_polled_in_tape_order": b.Report.SelectsPolled, "selects": b.Report.Selects, "per_iteration_loopvar": b.Report.PerIterLoopVar},
 			"determinism_canary":  canaryNote,
 			"real_vs_stub":        "real: goag, generator, specification, cmd/goag (CLI mode), templates, kin-openapi loader, yaml, x/tools/imports, kernel FS under scratch; stub: Go map iteration order inside goag's packages (tape), clock (simulated)",
 			"build_s":             b.BuildS,
